@@ -297,6 +297,8 @@ class Interp:
         v = self._cev(node)
         if isinstance(v, float):
             return self.d.const(Fraction(v))
+        if isinstance(v, list):
+            return RVec([self.d.const(Fraction(x)) if isinstance(x, float) else x for x in v])
         return v
 
     def _cev(self, n):
@@ -365,6 +367,9 @@ class Interp:
             if f.py is not None:
                 return f.py(self, *args)
             return self.call_fn(f.name, args)
+        if isinstance(f, REnum) and f.name in ("min", "max") and len(args) == 2:
+            a, b = [x.get() if isinstance(x, ElemRef) else x for x in args]
+            return self.d.fmin(a, b) if f.name == "min" else self.d.fmax(a, b)
         raise Unsupported(f"call of non-function {f!r}")
 
     # ------------------------------------------------------------ patterns
@@ -981,7 +986,7 @@ class Interp:
                 return REnum(name, [self.expr(a, env) for a in args])
             raise Unsupported(f"call to {'::'.join(p)} (line {line})")
         fv = self.expr(f, env)
-        if not isinstance(fv, (Closure, FnVal)):
+        if not isinstance(fv, (Closure, FnVal)) and not (isinstance(fv, REnum) and fv.name in ("min", "max")):
             raise Unsupported(f"call of a non-function value at line {line}: {str(f)[:80]}")
         return self.call_value(fv, [self.expr(a, env) for a in args])
 
@@ -1105,6 +1110,15 @@ class Interp:
                 return list(reversed(recv))
             if name == "map":
                 return [self.call_value(args[0], [x]) for x in recv]
+            if name == "max_by":
+                if not recv:
+                    return NONE
+                best = recv[0]
+                for x in recv[1:]:
+                    o = self.call_value(args[0], [best, x])
+                    if isinstance(o, REnum) and o.name in ("Less", "Equal"):
+                        best = x      # Iterator::max_by returns the last maximal element
+                return some(best)
             if name == "filter":
                 return [x for x in recv if self.truth(self.call_value(args[0], [x]), "filter")]
             if name == "collect":
@@ -1172,7 +1186,12 @@ class Interp:
         if name in ("clone", "to_owned"):
             return v
         if name == "partial_cmp":
-            raise Unsupported("partial_cmp")
+            other = args[0].get() if isinstance(args[0], ElemRef) else args[0]
+            if self.truth(d.cmp("<", v, other), "partial_cmp <"):
+                return some(REnum("Less"))
+            if self.truth(d.cmp(">", v, other), "partial_cmp >"):
+                return some(REnum("Greater"))
+            return some(REnum("Equal"))
         raise Unsupported(f"float method .{name}() (line {n[4]})")
 
 
